@@ -14,9 +14,10 @@ pub mod variant {
     pub const JSRR_TEMP: u32 = 1 << 0;
     /// TRAP: 0 = R7 unchanged (3rd ed. / lace); 1 = R7 = incremented PC (2nd ed.).
     pub const TRAP_R7: u32 = 1 << 1;
-    /// PUSH R7: 0 = stores the value R7 had before the decrement; 1 = the decremented value.
+    /// (retired) PUSH R7 / POP R7 were once accepted in two orders; the README's wording
+    /// ("push the contents of a register", "pop the top value ... into a register") decides:
+    /// PUSH R7 stores the value R7 held before the instruction, POP R7 leaves the popped value.
     pub const PUSH_R7_AFTER: u32 = 1 << 2;
-    /// POP R7: 0 = R7 = popped value; 1 = popped value + 1.
     pub const POP_R7_PLUS: u32 = 1 << 3;
     /// Non-ASCII input byte: 0 = R0 = U+FFFD marker (lace's documented replacement);
     /// 1 = R0 = the raw byte.
@@ -221,23 +222,16 @@ impl RefVm {
                     }
                 } else if w & 0x0400 != 0 {
                     // PUSH
-                    let mut v = self.reg[sr1];
-                    if sr1 == 7 && self.var(variant::PUSH_R7_AFTER) {
-                        v = v.wrapping_sub(1);
-                    }
+                    // "push the contents of a register": the value the register holds when the
+                    // instruction starts, also for R7 (the stack pointer itself)
+                    let v = self.reg[sr1];
                     self.push(v);
                 } else {
                     // POP
+                    // "pop the top value of the stack off into a register": the named register
+                    // ends up holding the popped value, also when it is R7
                     let v = self.pop();
-                    if sr1 == 7 {
-                        self.reg[7] = if self.var(variant::POP_R7_PLUS) {
-                            v.wrapping_add(1)
-                        } else {
-                            v
-                        };
-                    } else {
-                        self.reg[sr1] = v;
-                    }
+                    self.reg[sr1] = v;
                 }
             }
             0xF => return self.trap(w),
